@@ -1,3 +1,165 @@
-import Econf.Parser
+import Econf.Lemmas.GrammarLemmas
+
+/-!
+  # C02 – a conventionally written file parses to exactly the sections, keys and values written
+
+  `Econf/Grammar.lean` is the conventional grammar as data (`Item`, `render`) together with what each
+  item is expected to contribute (`expItem`, `expDoc`).  The theorems here say that the parser model
+  (`parseBytes`, tied to `lib/keyfile.c`/`lib/helpers.c` by the correspondence check) returns exactly
+  that, for **every** document of the grammar – any number of items, any lengths, any bytes the
+  well-formedness predicates admit.
+
+  Delimiter class covered by the proof: "non-blank" (`CfgWF.nonblank`, e.g. `=`, `:`, `=:`), the
+  class of every configuration file format the library is used for.  The blank and mixed classes and
+  a last line without line break are decided by the correspondence check only (DESIGN.md 10.4).
+-/
+
+set_option linter.unusedSimpArgs false
+
 namespace Econf
+
+/-- the comment set `read_file` works with: `#` when none is given -/
+def Cfg.eff (cfg : Cfg) : Cfg :=
+  { cfg with comment := if cfg.comment.isEmpty then [0x23] else cfg.comment }
+
+/-- **C02.**  Parsing the bytes of a conventional document yields exactly the expected state:
+    the entries in file order with their section, key, value, quoting, comments and line number,
+    and the sections in order of first appearance. -/
+theorem C02_parse_render (cfg : Cfg) (doc : List Item) (hw : CfgWF cfg.eff) (h : ∀ it ∈ doc, it.WF cfg.eff) :
+    parseBytes cfg (render doc) =
+      .ok (if cfg.join then { expDoc doc with entries := joinSame (expDoc doc).entries } else expDoc doc) := by
+  unfold parseBytes
+  have h1 : splitLines (render doc) = renderLines doc := splitLines_render cfg.eff hw doc h
+  have h2 := parse_doc cfg.eff hw doc {} h
+  unfold Cfg.eff at h2
+  simp only [h1, h2]
+  rfl
+
+/-- without `JOIN_SAME_ENTRIES` the result is the expected state itself -/
+theorem C02_parse_render_plain (cfg : Cfg) (doc : List Item) (hw : CfgWF cfg.eff) (h : ∀ it ∈ doc, it.WF cfg.eff)
+    (hj : cfg.join = false) : parseBytes cfg (render doc) = .ok (expDoc doc) := by
+  rw [C02_parse_render cfg doc hw h, hj]; rfl
+
+/-! ### the expected state in plain terms
+
+`expItem` is written with the parser's storing functions; the theorems below unfold it for an entry
+item into the record a reader of the file expects. -/
+
+/-- value of an entry with continuation lines: every continuation line, as written, is appended
+    behind a line break -/
+def contValue (v : Option Str) (conts : List ContLine) : Option Str :=
+  conts.foldl (fun v l => some (nlCat (v.getD []) l.render)) v
+
+theorem trimKey_key (cfg : Cfg) (e : EntryI) (h : e.WF cfg) : trimKey e.key = e.key := by
+  cases hk : e.key with
+  | nil => rfl
+  | cons k ks =>
+    have : dropLastWhile isSpace ks = ks := by
+      have := dropLastWhile_text_blanks ks [] (by intro c hc; cases hc) (by
+        intro c hc
+        have hmem : c ∈ ks := List.mem_of_getLast? hc
+        exact (h.keyCh c (by rw [hk]; exact List.mem_cons_of_mem _ hmem)).2.1)
+      simpa using this
+    simp only [trimKey, this]
+
+theorem conts_fold (conts : List ContLine) (s : PState) (pre : List Entry) (x : Entry)
+    (he : s.entries = pre ++ [x]) (hca : s.ca = none) (hcb : s.cb = none) (hxl : x.line = s.line) :
+    conts.foldl (fun s l => storeAppend false { s with line := s.line + 1 } l.render) s =
+      { s with
+        entries := pre ++ [{ x with value := contValue x.value conts,
+                                    ca := x.ca.map (· ++ List.replicate conts.length NL),
+                                    line := s.line + conts.length }]
+        line := s.line + conts.length } := by
+  induction conts generalizing s x with
+  | nil =>
+    have : x.ca.map (· ++ List.replicate 0 NL) = x.ca := by cases x.ca <;> simp
+    simp only [List.foldl_nil, contValue, List.length_nil, this, Nat.add_zero]
+    cases s; cases x
+    simp only at he hxl ⊢
+    subst hxl he
+    rfl
+  | cons l ls ih =>
+    rw [List.foldl_cons]
+    have hlast : s.entries.getLast? = some x := by rw [he]; simp
+    have hstep : storeAppend false { s with line := s.line + 1 } l.render =
+        { s with entries := pre ++ [{ x with value := some (nlCat (x.value.getD []) l.render),
+                                             ca := x.ca.map (· ++ [NL]), line := s.line + 1 }],
+                 line := s.line + 1, cb := none, ca := none } := by
+      unfold storeAppend
+      simp only [hlast, he, List.dropLast_concat, appendToEntry, hca, Bool.false_eq_true, if_false]
+      cases hx : x.ca <;> simp [nlCat, hx, hcb]
+    rw [hstep, ih _ _ rfl rfl rfl rfl]
+    have hrep : ∀ (a : Str), (a ++ [NL]) ++ List.replicate ls.length NL = a ++ List.replicate (ls.length + 1) NL := by
+      intro a; rw [List.append_assoc, List.replicate_succ]; rfl
+    have hm : (x.ca.map (· ++ [NL])).map (· ++ List.replicate ls.length NL) = x.ca.map (· ++ List.replicate (ls.length + 1) NL) := by
+      cases x.ca with
+      | none => rfl
+      | some a => simp only [Option.map_some, hrep]
+    simp only [contValue, List.foldl_cons, List.length_cons, hm, hca, hcb, Nat.add_assoc, Nat.add_comm 1]
+
+/-- **C02, entry items in plain terms.**  An entry item contributes one entry: the section open at
+    that point (or the no-section marker), the key as written, the expected value followed by the
+    continuation lines, the pending comment lines before it, the trailing comment of its line (one
+    line break added per continuation line), the number of its last line, and whether the value was
+    quoted. -/
+theorem C02_entry_item (cfg : Cfg) (st : PState) (e : EntryI) (h : e.WF cfg) :
+    expItem st (.entry e) =
+      { st with
+        entries := st.entries ++ [{
+          group := st.curGroup.getD NONE
+          key := e.key
+          value := contValue e.expValue.1 e.cont
+          cb := st.cb
+          ca := (caWith st.ca e.tc).map (· ++ List.replicate e.cont.length NL)
+          line := st.line + 1 + e.cont.length
+          quotes := e.expValue.2 }]
+        groups := addGroup st.groups (st.curGroup.getD NONE)
+        cb := none
+        ca := none
+        line := st.line + 1 + e.cont.length } := by
+  simp only [expItem]
+  rw [conts_fold e.cont _ st.entries _ rfl rfl rfl rfl]
+  simp only [storeNew, trimKey_key cfg e h]
+
+/-! ### the hypotheses are satisfiable: a concrete document of the grammar -/
+
+def exCfg : Cfg := { delim := [0x3d], comment := [] }
+def exEntry1 : EntryI :=
+  { indent := [0x20], key := [0x6b], ws1 := [0x20], d := 0x3d, ws2 := [0x20],
+    value := .quoted [0x61, 0x20, 0x23, 0x20, 0x62], tws := [0x20],
+    tc := some { c := 0x23, text := [0x20, 0x74] },
+    cont := [{ indent := [0x09], text := [0x6d, 0x6f, 0x20, 0x72, 0x65], trail := [0x20] }] }
+def exEntry2 : EntryI :=
+  { indent := [], key := [0x65], ws1 := [], d := 0x3d, ws2 := [], value := .plain [], tws := [], tc := none, cont := [] }
+def exDoc : List Item :=
+  [ .comment [] 0x23 [0x20, 0x6c], .blank [0x20], .sect [] [0x53] [0x20] none, .entry exEntry1, .entry exEntry2 ]
+
+theorem exCfg_wf : CfgWF exCfg.eff := by
+  refine ⟨by decide, by decide, by decide, by decide, by decide, by decide, by decide, by decide, by decide⟩
+
+theorem exDoc_wf : ∀ it ∈ exDoc, it.WF exCfg.eff := by
+  intro it hit
+  simp only [exDoc, List.mem_cons, List.not_mem_nil, or_false] at hit
+  rcases hit with rfl | rfl | rfl | rfl | rfl
+  · exact ⟨by decide, by decide, by decide⟩
+  · show blanks _; decide
+  · exact ⟨by decide, by decide, by decide, by decide, trivial⟩
+  · refine ⟨⟨by decide, by decide, by decide, by decide, by decide, by decide, by decide, by decide, by decide, by decide, ?_, ?_⟩, ?_⟩
+    · show texts _; decide
+    · exact ⟨by decide, by decide, by decide, by decide⟩
+    · intro l hl
+      simp only [exEntry1, List.mem_singleton] at hl; subst hl
+      exact ⟨by decide, by decide, by decide, by decide, by decide, by decide⟩
+  · refine ⟨⟨by decide, by decide, by decide, by decide, by decide, by decide, by decide, by decide, by decide, by decide, ?_, trivial⟩, ?_⟩
+    · exact ⟨by decide, by decide, by decide, by decide⟩
+    · intro l hl; cases hl
+
+example : (expDoc exDoc).entries.map (fun e => (e.group, e.key, e.value, e.quotes, e.line)) =
+    [([0x53], [0x6b], some [0x61, 0x20, 0x23, 0x20, 0x62, 0x0a, 0x09, 0x6d, 0x6f, 0x20, 0x72, 0x65, 0x20], true, 5),
+     ([0x53], [0x65], none, false, 6)] := by decide
+
+/-- the concrete document, through the theorem -/
+example : parseBytes exCfg (render exDoc) = .ok (expDoc exDoc) :=
+  C02_parse_render_plain exCfg exDoc exCfg_wf exDoc_wf rfl
+
 end Econf
